@@ -53,13 +53,13 @@ _INV = dict(cls='B', tu='C08_inversion_b.c', entry='h_inversion', dfcc=False, ca
 _KN = {0: 'bit', 1: 'bin', 2: 'icdf', 3: 'bits', 4: 'uint', 5: 'freq'}
 for _a in range(6):
     for _b in range(6):
-        _quick = (_a, _b) in ((0, 3), (1, 2), (3, 1), (2, 0))
+        _quick = (_a, _b) in ((0, 3),)
         GROUPS.append(dict(_INV, name='inv_%s_%s' % (_KN[_a], _KN[_b]), unwind=10, timeout=3600, mem_gb=20, tier='quick' if _quick else 'thorough',
             defines=['-DVERIF_K0=%d' % _a, '-DVERIF_K1=%d' % _b, '-DVERIF_STORAGE=5'],
             bounds='2 operations (%s then %s) with symbolic parameters and values, buffer of 5 bytes, ft <= 256 for division-based kinds' % (_KN[_a], _KN[_b]),
             what='encode -> ec_enc_done -> decode: values, tell, tell_frac and rng agree; done cannot fail within budget'))
 # ec_encode is used through its contract by ec_enc_uint but its own range facts are NOT discharged (tier off): it is reported as an assumed contract
-GROUPS.append(dict(_INV, name='inv_patch_bit_bit_freq', unwind=10, timeout=3600, mem_gb=20,
+GROUPS.append(dict(_INV, name='inv_patch_bit_bit_freq', unwind=10, timeout=5400, mem_gb=20, tier='thorough',
     defines=['-DVERIF_NOPS=3', '-DVERIF_K0=0', '-DVERIF_K1=0', '-DVERIF_K2=5', '-DVERIF_STORAGE=5', '-DVERIF_PATCH=2'],
     bounds='2 bits (p=1/2) + one frequency-coded symbol (ft <= 256) + ec_enc_patch_initial_bits of the 2 bits, buffer of 5 bytes',
     what='initial-bit patching: if the encoder reports no error the decoder sees the patched bits and the following symbol unchanged'))
